@@ -40,18 +40,18 @@ const noLimit = uint64(sqlite.NoLimit)
 func openMemDB(ctx context.Context) (*sql.DB, uint32) {
 	db, err := sql.Open("sqlite3", ":memory:")
 	if err != nil {
-		common.Fatalf("open: %v", err)
+		panic(fmt.Sprintf("open: %v", err))
 	}
 	db.SetMaxOpenConns(1)
 	if err := sqlite.SetPragmas(ctx, db); err != nil {
-		common.Fatalf("pragmas: %v", err)
+		panic(fmt.Sprintf("pragmas: %v", err))
 	}
 	if err := sqlite.Migrate(ctx, db); err != nil {
-		common.Fatalf("migrate: %v", err)
+		panic(fmt.Sprintf("migrate: %v", err))
 	}
 	seed, err := sqlite.VerifSetOrLoadXXHashSeed(ctx, db)
 	if err != nil {
-		common.Fatalf("seed: %v", err)
+		panic(fmt.Sprintf("seed: %v", err))
 	}
 	return db, seed
 }
@@ -113,17 +113,17 @@ func c06RunHandler(c *c06Case) {
 	defer cancel()
 	db, err := sql.Open("sqlite3", ":memory:")
 	if err != nil {
-		common.Fatalf("open: %v", err)
+		panic(fmt.Sprintf("open: %v", err))
 	}
 	db.SetMaxOpenConns(1)
 	defer db.Close()
 	if err := sqlite.SetPragmas(ctx, db); err != nil {
-		common.Fatalf("pragmas: %v", err)
+		panic(fmt.Sprintf("pragmas: %v", err))
 	}
 	h, err := sqlite.NewSQLiteHandler(ctx, db, &sqlite.SQLiteHandlerOption{
 		EventBulkInsertNum: 1, EventBulkInsertDur: time.Hour, MaxLimit: uint(c.ML)})
 	if err != nil {
-		common.Fatalf("handler: %v", err)
+		panic(fmt.Sprintf("handler: %v", err))
 	}
 	recv := make(chan mocrelay.ClientMsg)
 	send := make(chan mocrelay.ServerMsg, 4096)
